@@ -94,7 +94,19 @@ def operands(text):
 def supported(text):
     if re.search(r"HEX_REG_ALIAS|fcirc_add|usr_field|get_npc|REGFIELD|FLOAT|DOUBLE|fUN|trap|STORE_SLOT|bundle|pkt\b", text):
         return False
-    return operands(text) is not None
+    ops = operands(text)
+    if ops is None:
+        return False
+    # the same register named both as value (RsV) and as new-value (RsN): two C variables in the gcc harness, one register with
+    # two banks in the reference - comparable only if the program does not assign either of them
+    by_ident = {}
+    for tok, info in ops.items():
+        if info["kind"] == "reg":
+            by_ident.setdefault(info["ident"], []).append(tok)
+    for toks in by_ident.values():
+        if len(toks) > 1 and any(re.search(r"\b" + re.escape(t) + r"\s*(=[^=]|[-+*/%&|^]=|<<=|>>=|\+\+|--)", text) for t in toks):
+            return False
+    return True
 
 
 def c_type(info):
@@ -129,8 +141,11 @@ def reference_run(text, subs, macs, init):
             vals["imm_" + info["letter"]] = init[tok]
         else:
             name = Env.ident_name(info["ident"])
-            vals["old_" + name] = init[tok]
-            vals["new_" + name] = init[tok]
+            both = sum(1 for i2 in ops.values() if i2["kind"] == "reg" and i2["ident"] == info["ident"]) > 1
+            if not both or not info["new"]:
+                vals["old_" + name] = init[tok]
+            if not both or info["new"]:
+                vals["new_" + name] = init[tok]
     D = ConcDom()
     env = Env(D, optable(text, [d["code"] for d in subs.values()]), vals)
     cx = CExec(env, subs, macs, 40)
